@@ -165,17 +165,24 @@ class Executor(ResolutionContext):
             parent_value, self.context_value, info
         )
 
+        ended = []
+
+        def end():
+            # The error handler also runs for resolver errors raised while
+            # the value is completed, after the field has ended.
+            if not ended:
+                ended.append(True)
+                self.instrumentation.on_field_end(
+                    parent_value, self.context_value, info
+                )
+
         def fail(err):
             self.add_error(err, path, node)
-            self.instrumentation.on_field_end(
-                parent_value, self.context_value, info
-            )
+            end()
             return None
 
         def complete(res):
-            self.instrumentation.on_field_end(
-                parent_value, self.context_value, info
-            )
+            end()
             return self.complete_value(
                 field_definition.type, nodes, path, info, res
             )
